@@ -49,6 +49,10 @@ def clamp(iv, rng):
     return iv
 
 
+def is_c(k):
+    return isinstance(k, tuple) and k[0] == "c"
+
+
 def key_root(k):
     if isinstance(k, int):
         return k
@@ -58,7 +62,7 @@ def key_root(k):
 
 
 class State:
-    __slots__ = ("iv", "arr", "alias", "bf", "ub")
+    __slots__ = ("iv", "arr", "alias", "bf", "ub", "sym")
 
     def __init__(self):
         self.iv = {}
@@ -66,6 +70,7 @@ class State:
         self.alias = {}   # local -> key it is a copy of
         self.bf = {}      # bool local -> (op, akey, bkey); keys may be ("c", value)
         self.ub = {}      # key -> frozenset of keys known to be strictly greater (relational upper bounds)
+        self.sym = {}     # key -> ("sub", C, K): value == C - value(K), no wrap-around
 
     def copy(self):
         s = State()
@@ -74,11 +79,12 @@ class State:
         s.alias = dict(self.alias)
         s.bf = dict(self.bf)
         s.ub = dict(self.ub)
+        s.sym = dict(self.sym)
         return s
 
     def same(self, o):
         return self.iv == o.iv and self.arr == o.arr and self.alias == o.alias and self.bf == o.bf \
-            and self.ub == o.ub
+            and self.ub == o.ub and self.sym == o.sym
 
 
 class Analysis:
@@ -94,6 +100,10 @@ class Analysis:
         "core::num::<impl u64>::trailing_ones": (0, 64),
         "core::num::<impl u64>::count_ones": (0, 64),
         "core::num::<impl u128>::leading_zeros": (0, 128),
+        "core::convert::num::<impl core::convert::From<bool> for i8>::from": (0, 1),
+        "core::convert::num::<impl core::convert::From<bool> for u8>::from": (0, 1),
+        "core::convert::num::<impl core::convert::From<bool> for u64>::from": (0, 1),
+        "core::convert::num::<impl core::convert::From<bool> for usize>::from": (0, 1),
     }
 
     def __init__(self, view, arg_intervals=None, summaries=None):
@@ -261,6 +271,8 @@ class Analysis:
             del st.alias[t]
         for d in [d for d, f in st.bf.items() if key_root(f[1]) == l or key_root(f[2]) == l]:
             del st.bf[d]
+        for k in [k for k, v in st.sym.items() if key_root(v[2]) == l]:
+            del st.sym[k]
         for k in list(st.ub):
             if key_root(k) == l:
                 del st.ub[k]
@@ -279,6 +291,8 @@ class Analysis:
         st.iv.pop(("len", l), None)
         for k in [k for k in st.iv if isinstance(k, tuple) and k[0] == "pl" and k[1] == l]:
             del st.iv[k]
+        for k in [k for k in st.sym if key_root(k) == l]:
+            del st.sym[k]
         self.forget_about(st, l)
 
     def index_value(self, st, e):
@@ -332,9 +346,11 @@ class Analysis:
 
     def operand_key(self, st, op):
         """A key (or ("c", value)) naming the current value of an operand."""
+        c = self.v.const_of_operand(op)
+        if c is not None:
+            return ("c", c)
         if op.get("o") == "const":
-            c = self.v.const_of_operand(op)
-            return ("c", c) if c is not None else None
+            return None
         iv, key = self.eval_operand(st, op)
         if key is None:
             return None
@@ -453,6 +469,11 @@ class Analysis:
             if a is not None and rng is not None and a[0] >= rng[0] and a[1] <= rng[1]:
                 return a, al
             return rng, None
+        if k == "discr":
+            pl = rv["pl"]
+            if not pl["p"] and pl["l"] not in self.escaped:
+                return st.iv.get(("pl", pl["l"], (("discr",),)), rng), None
+            return rng, None
         if k == "un":
             if rv["op"] == "PtrMetadata":
                 a = rv["a"]
@@ -570,10 +591,14 @@ class Analysis:
             return
         if rng is None:
             new_paths = {}
+            new_sym = {}
             if rv["r"] == "agg" and rv.get("kind") in ("tuple", "adt"):
                 pre = (("dc", rv["vidx"]),) if (rv.get("kind") == "adt" and self._is_enum(rv["def"])) else ()
                 for i, o in enumerate(rv["ops"]):
                     iv, _ = self.eval_operand(st, o)
+                    if o.get("o") in ("copy", "move") and not o["p"] and o["l"] in st.sym \
+                            and key_root(st.sym[o["l"]][2]) != l:
+                        new_sym[pre + (("f", i),)] = st.sym[o["l"]]
                     if iv is not None:
                         new_paths[pre + (("f", i),)] = iv
                     elif o.get("o") in ("copy", "move") and not o["p"] and o["l"] not in self.escaped:
@@ -588,10 +613,17 @@ class Analysis:
                     for k, v in st.iv.items():
                         if isinstance(k, tuple) and k[0] == "pl" and k[1] == a["l"] and k[2][:n] == path:
                             new_paths[k[2][n:]] = v
+                    for k, v in st.sym.items():
+                        if isinstance(k, tuple) and k[0] == "pl" and k[1] == a["l"] and k[2][:n] == path \
+                                and key_root(v[2]) != l:
+                            new_sym[k[2][n:]] = v
             self.kill_local(st, l)
             for p_, v in new_paths.items():
                 if p_:
                     st.iv[("pl", l, p_)] = v
+            for p_, v in new_sym.items():
+                if p_:
+                    st.sym[("pl", l, p_)] = v
             return
         fact = None
         if tn == "bool":
@@ -609,7 +641,34 @@ class Analysis:
                 if a.get("o") in ("copy", "move") and not a["p"] and a["l"] in st.bf:
                     fact = st.bf[a["l"]]
         iv, alias = self.eval_rvalue(st, rv, rng, tn)
+        symv = None
+        if rv["r"] == "bin" and rv["op"] in ("Sub", "Add") and rng is not None:
+            ka, kb = self.operand_key(st, rv["a"]), self.operand_key(st, rv["b"])
+            if rv["op"] == "Sub" and ka is not None and kb is not None and is_c(ka) and not is_c(kb):
+                biv = self.get(st, kb)
+                if biv is not None and biv[0] >= 0 and biv[1] <= ka[1] and key_root(kb) != l:
+                    symv = ("sub", ka[1], kb)
+            if rv["op"] == "Sub" and ka is not None and kb is not None and not is_c(ka) and not is_c(kb):
+                sa = st.sym.get(ka)
+                aiv = self.get(st, ka)
+                if sa is not None and sa[0] == "sub" and aiv is not None:
+                    # A = C1 - i ;  i < C - B (no wrap)  =>  A - B >= C1 - C + 1
+                    for e in st.ub.get(sa[2], ()):
+                        sy = st.sym.get(e)
+                        if sy is not None and sy[0] == "sub" and sy[2] == kb and sa[1] - sy[1] + 1 >= 0:
+                            iv = (sa[1] - sy[1] + 1, aiv[1])
+            if rv["op"] == "Add" and ka is not None and kb is not None and iv is not None:
+                for x, y in ((ka, kb), (kb, ka)):
+                    if isinstance(x, tuple) and x[0] == "c":
+                        continue
+                    for e in st.ub.get(x, ()):
+                        sy = st.sym.get(e)
+                        if sy is not None and sy[2] == y and sy[0] == "sub":
+                            # x < C - y  and no wrap  =>  x + y <= C - 1
+                            iv = (iv[0], min(iv[1], sy[1] - 1))
         self.kill_local(st, l)
+        if symv is not None:
+            st.sym[l] = symv
         if iv is None:
             iv = rng
         iv = meet(iv, rng)
@@ -645,7 +704,7 @@ class Analysis:
                     del st.iv[k]
             return
         rng = self.rng[d]
-        iv, alias, fact, paths = None, None, None, {}
+        iv, alias, fact, paths, syms, ubs = None, None, None, {}, {}, {}
         a0 = args[0] if args else None
         a0_local = a0["l"] if (a0 is not None and a0.get("o") in ("copy", "move") and not a0["p"]) else None
         if name in self.LEN_CALLS and a0_local is not None:
@@ -684,6 +743,9 @@ class Analysis:
             for k, v in st.iv.items():
                 if isinstance(k, tuple) and k[0] == "pl" and k[1] == a0_local:
                     paths[k[2]] = v
+            for k, v in st.sym.items():
+                if isinstance(k, tuple) and k[0] == "pl" and k[1] == a0_local and key_root(v[2]) != d:
+                    syms[k[2]] = v
         elif name == self.RANGE_NEXT and a0_local is not None:
             r = self.root_of(a0_local)
             if r is not None and r[0] == "own" and r[1] not in self.escaped:
@@ -692,6 +754,9 @@ class Analysis:
                 if start is not None and end is not None:
                     if end[1] - 1 >= start[0]:
                         paths[(("dc", 1), ("f", 0))] = (start[0], end[1] - 1)
+                        ubs[(("dc", 1), ("f", 0))] = frozenset([ke])
+                    else:
+                        paths[(("discr",),)] = (0, 0)   # empty range: next() is None
                     st.iv[ks] = (start[0], max(start[1], end[1]))
                 else:
                     st.iv.pop(ks, None)
@@ -716,6 +781,11 @@ class Analysis:
             for p_, v in paths.items():
                 if p_:
                     st.iv[("pl", d, p_)] = v
+            for p_, v in syms.items():
+                if p_:
+                    st.sym[("pl", d, p_)] = v
+            for p_, v in ubs.items():
+                st.ub[("pl", d, p_)] = v
 
     # ------------------------------------------------------------------ branches
     def refine(self, st, op, ak, bk, truth):
@@ -798,6 +868,14 @@ class Analysis:
                         ns = st.copy()
                         if not self.refine(ns, cond[0], cond[1], cond[2], truths.pop()):
                             continue
+                elif plain and self.rng[d["l"]] is not None and is_other and not vals:
+                    # `otherwise` of an integer match: infeasible when every possible value has an arm
+                    cur, _k = self.eval_operand(st, d)
+                    if cur is not None and cur[1] - cur[0] <= 512:
+                        tn = self.v.local_tyname(d["l"])
+                        armed = {ir.wrap(v, tn) for v in all_vals}
+                        if all(x in armed for x in range(cur[0], cur[1] + 1)):
+                            continue
                 elif plain and self.rng[d["l"]] is not None and len(vals) == 1 and not is_other:
                     ns = st.copy()
                     v = ir.wrap(vals[0], self.v.local_tyname(d["l"]))
@@ -861,6 +939,9 @@ class Analysis:
             w = v & b.ub.get(k, frozenset())
             if w:
                 r.ub[k] = w
+        for k, v in a.sym.items():
+            if b.sym.get(k) == v:
+                r.sym[k] = v
         return r
 
     def _run(self):
@@ -868,6 +949,9 @@ class Analysis:
         st0 = State()
         for l, iv in self.arg_intervals.items():
             st0.iv[l] = iv
+        for l, (n, erng) in self.arrlen.items():
+            if v.is_arg(l) and l not in self.escaped:
+                st0.arr[l] = [erng] * n
         self.entry = {0: st0}
         visits = {}
         heads = set()
